@@ -31,6 +31,17 @@ CLAIMS["C12"] = dict(
     text="TLC shows that the operational decoder (pending time, push-front/push-back, flush, redundancy-aware add) computes exactly the declarative legacy rule (maximal runs of close times; last inherited else first timing-change per kind; add in order) for every sequence up to the bound, with sortedness and clamp invariants; the real decoder is compared with the model's predicted four lists on every enumerated sequence under two spellings, and long random sequences recorded from the real parser must be behaviours of the same operators.",
     note="Trusted: TLC, the spelling table harness/src/timing.rs, exactness rule (velocities on a 1/1000 lattice), times = whole ms plus 0+ (1e-17); -0 and NaN times are outside the alphabet.")
 
+CLAIMS["C14"] = dict(
+    category="model_checking", design_ref="DESIGN.md section 4, C14",
+    technique="TLA+ specs HitObjectLine + PathString + Samples (abstract hit-object lines, path tokens, bank infos) with structural invariants checked by TLC; every TLC-generated line sequence replayed line by line into the real parse_hit_objects on its public state",
+    text="The legacy grammar is transcribed as operators over abstract lines (type/sound bits, coordinate truncation and limits, repeat/length/duration rules, node lists, bank infos, the path-token decoder with its implicit-segment rules); TLC enumerates every type byte, every sound byte, combo sequences, numeric and rejection classes, bank-info shapes and every path token string up to the bound, checks the structural invariants of the decoded objects, and the real parser is compared with the predicted object after every line under two spellings.",
+    note="Trusted: TLC, the spelling table and projection in harness/src/hitobj.rs; values are integers (fraction class only for truncation); paths are spelled around four named points.")
+CLAIMS["C06"] = dict(
+    category="model_checking", design_ref="DESIGN.md section 4, C06",
+    technique="TLA+ spec HitObjectLine (Accept/Reject actions with the scratch state a line can pass on) and TimingLines (Reject = stutter): invariant 'result = fold of accepted lines' checked by TLC; replay of every generated sequence line by line plus the model-free relation decode(file) == decode(file minus rejected lines); a Neg config keeps the pinned (leaking) behaviour as a violated model",
+    text="TLC checks over all sequences up to the bound (valid records x every rejection class, including failures deep inside multi-segment paths) that the decoded objects are a fold of the accepted lines only; the real parser is replayed on each sequence with per-line Ok/Err compared with the model's verdict, and the decoder's result is compared with that of the same file without the rejected lines.",
+    note="Trusted: TLC, harness spelling tables. Key/value, event and colour sections are covered by C11's Records check.")
+
 NOT_YET = "check not built yet in this round (planned, see DESIGN.md section 4)"
 NA = {
     "C17": "real-valued geometry (Hausdorff distance to Bezier/arc/Catmull curves): no discrete state or history for a TLA+ specification to decide; see DESIGN.md section 4, C17",
